@@ -207,6 +207,13 @@ func (rt *fakeRT) roundTrip(r *http.Request, name string) (*http.Response, error
 			Body:          io.NopCloser(strings.NewReader(body)),
 			ContentLength: int64(len(body))}
 	}
+	if strings.HasSuffix(plan, "+ownid") {
+		// a backend that stamps its own identifiers into the reply
+		resp := mk(200, "hello from "+name)
+		resp.Header.Set(rt.reqH, "backend-own-rid")
+		resp.Header.Set(rt.trH, "backend-own-tid")
+		return resp, nil
+	}
 	switch {
 	case plan == "ok":
 		return mk(200, "hello from "+name), nil
